@@ -23,13 +23,22 @@ entry of the processor metadata across parameters); trace-only helpers of the or
 through the call graph from the trace-only blocks; the volatile timing producers through resolved calls; what a
 function returns is followed through closures / lambdas of a local dispatch table; a canonical node may be appended
 as an expression (`{**node, ..}`, `dict(node, k=v)`, `node | {..}`) or come out of a tuple-returning helper.
+Round 5: D2 identity sources include raw memory images of arbitrary objects (buffer export `tobytes`, pickle/marshal,
+`__reduce__`) unless the value is known to be bytes-like; D1 driver-reusable-after-close: a public driver method that
+closes a handle resets every attribute that can refer to it (alias classes from `self.X = self.Y`, CFG paths, falsy-known
+edges) - execute() closes the driver after every run and the next run reuses it; D1 mode-selected-work-contained: code
+reached from execute() outside the trace-only blocks that receives a value derived from the trace driver (parameter, or
+attribute filled by the constructor; methods of locally constructed instances resolved) lets it select only contained
+work on user values (control-dependent CFG region of the test, conditional expressions, short-circuit operands,
+comprehension filters; value kinds LIVE / CONT / PLAIN from declared types and value flow; callees decided
+interprocedurally on the kinds of the arguments bound).
 """
 from __future__ import annotations
 
 import ast
 from typing import Dict, List, Optional, Set, Tuple
 
-from ..cfg import CFG, returns_only_through
+from ..cfg import CFG, edges_guaranteeing, returns_only_through
 from ..engine import (
     GROWERS,
     AnalysisError,
@@ -274,6 +283,8 @@ def run(repo: Repo, R: Report) -> None:
     _no_shared_mutable_tables(repo, R)
     _sinks_not_stricter_than_sanitiser(repo, R, drivers)
     _caller_data_reaches_sink_sanitised(repo, R)
+    _driver_reusable_after_close(repo, R)
+    _mode_selected_work_contained(repo, R, ex, fold)
     # the caller-owned canonical spec is not mutated (pipeline_id would depend on history)
     from . import c04
 
@@ -476,6 +487,11 @@ def _all_callers_contained(repo: Repo, f: ast.AST, depth: int) -> bool:
 
 
 def _guarded_reiterable(node: ast.AST, var: str) -> bool:
+    return _guarded_isinstance(node, var, REITERABLE)
+
+
+def _guarded_isinstance(node: ast.AST, var: str, allowed: Set[str]) -> bool:
+    """Is *node* in the true branch of a test `isinstance(<var>, T)` with every T in *allowed*?"""
     child = node
     for a in ancestors(node):
         if isinstance(a, FuncNode):
@@ -485,7 +501,7 @@ def _guarded_reiterable(node: ast.AST, var: str) -> bool:
                 if isinstance(c, ast.Call) and call_attr(c) == "isinstance" and len(c.args) == 2 and dotted_name(c.args[0]) == var:
                     t = c.args[1]
                     names = [dotted_name(e) for e in (t.elts if isinstance(t, ast.Tuple) else [t])]
-                    if names and all(n is not None and n.split(".")[-1] in REITERABLE for n in names):
+                    if names and all(n is not None and n.split(".")[-1] in allowed for n in names):
                         return True
         child = a
     return False
@@ -916,10 +932,27 @@ SINK_METHODS = _orch.DRIVER_METHODS | {"write", "writelines"}
 LOG_RECEIVERS = {"logger", "logging", "log", "warnings", "_logger", "LOGGER"}
 
 
+# raw memory images of an arbitrary object: the bytes a buffer export / pickle yields are those of the object's
+# storage, not of its content - an array of objects exports the addresses of its elements, a structured buffer its
+# padding, a pickle the sharing structure (memo by identity) and the iteration order of hashed containers
+RAW_IMAGE_METHODS = {"tobytes", "tostring", "__reduce__", "__reduce_ex__", "__getstate__"}
+RAW_IMAGE_CALLS = {"pickle.dumps", "cPickle.dumps", "marshal.dumps", "dill.dumps", "cloudpickle.dumps", "ctypes.string_at", "numpy.frombuffer", "np.frombuffer"}
+BYTES_LIKE = {"bytes", "bytearray", "memoryview"}
+
+
 def _source_kind(c: ast.Call) -> Optional[str]:
     d = call_name(c) or ""
     if d in IDENTITY_CALLS or d.startswith(IDENTITY_PREFIXES):
         return "identity"
+    if d in RAW_IMAGE_CALLS:
+        return "raw memory image"
+    if isinstance(c.func, ast.Attribute) and c.func.attr in RAW_IMAGE_METHODS:
+        # the raw bytes of a value known to be bytes / bytearray / memoryview are its content (numpy refuses to
+        # export an object array through the buffer protocol, so a memoryview never carries addresses)
+        recv = dotted_name(c.func.value)
+        if recv is not None and _guarded_isinstance(c, recv, BYTES_LIKE):
+            return None
+        return "raw memory image"
     if d in CLOCK_CALLS or (d.startswith("time.") and d.count(".") == 1):
         return "clock"
     return None
@@ -1079,7 +1112,7 @@ def _no_identity_in_stream(repo: Repo, R: Report, ex: ast.AST, helper_fns, drive
                 break
         if bad:
             c, kind, sink = bad
-            R.violation(r, rel, qn, norm(stmt_of(c))[:90], f"`{norm(c)[:50]}` ({kind}) flows into `{norm(sink)[:60]}`: a stable trace field now depends on the memory address / process / moment of the run, so two runs of the same configuration on the same payload give different traces", c.lineno)
+            R.violation(r, rel, qn, norm(stmt_of(c))[:90], f"`{norm(c)[:50]}` ({kind}) flows into `{norm(sink)[:60]}`: a stable trace field now depends on the memory address / process / moment of the run (a raw image of an arbitrary object carries the addresses of the objects it refers to), so two runs of the same configuration on the same payload give different traces", c.lineno)
         else:
             R.ok(r, rel, qn, f"{qn}: no identity" + ("/clock" if clock_too else "") + " source reaches the output")
     # execute itself: the only clock/uuid source is the run id handed to on_pipeline_start
@@ -1676,3 +1709,617 @@ def _caller_data_reaches_sink_sanitised(repo: Repo, R: Report) -> None:
                     R.check(ok, r, rel, f"{cls.name}.{meth}", f"`{p}` (caller's run metadata) is sanitised before encoding", f"`{norm(stmt_of(raw_uses[0]))[:80] if raw_uses else ''}` puts the caller-supplied `{p}` into the record as it is: a value the JSON encoder rejects (a date from YAML, a numpy scalar, a set) makes `{meth}` raise - execute() calls it unguarded, so the traced run fails where the untraced run succeeds", raw_uses[0].lineno if raw_uses else f0.lineno)
     if n == 0:
         raise AnalysisError("no trace-driver callback receives the run-metadata values under the names execute() uses")
+
+
+# ---------------------------------------------------------------------------------------------------------
+# D1 (round 5): a driver is used for run after run - what releases its handles leaves no attribute on a closed one
+# ---------------------------------------------------------------------------------------------------------
+def _handle_attrs(cls: ast.ClassDef) -> Tuple[Dict[str, ast.AST], Dict[str, Set[str]]]:
+    """(attributes of `self` that hold an open file: bound from an `open(..)` / `<path>.open(..)` call somewhere in the
+    class, or bound from / to such an attribute -> the statement that shows it; attribute -> the attributes it can be
+    the same object as, through `self.X = self.Y`)."""
+    handles: Dict[str, ast.AST] = {}
+    pairs: List[Tuple[str, str, ast.AST]] = []
+    for n in ast.walk(cls):
+        if not isinstance(n, (ast.Assign, ast.AnnAssign)) or getattr(n, "value", None) is None:
+            continue
+        tgts = n.targets if isinstance(n, ast.Assign) else [n.target]
+        for t in tgts:
+            a = _self_attr(t)
+            if a is None:
+                continue
+            v = n.value
+            if isinstance(v, ast.Call) and call_attr(v) == "open":
+                handles.setdefault(a, n)
+            for form in ([v.body, v.orelse] if isinstance(v, ast.IfExp) else [v]):
+                b = _self_attr(form)
+                if b is not None and b != a:
+                    pairs.append((a, b, n))
+    alias: Dict[str, Set[str]] = {}
+    changed = True
+    while changed:
+        changed = False
+        for a, b, n in pairs:
+            if (a in handles) != (b in handles):
+                handles.setdefault(a, n)
+                handles.setdefault(b, n)
+                changed = True
+    for a, b, n in pairs:
+        if a in handles:
+            alias.setdefault(a, set()).add(b)
+            alias.setdefault(b, set()).add(a)
+    # transitive
+    changed = True
+    while changed:
+        changed = False
+        for a in list(alias):
+            for b in list(alias[a]):
+                new = alias.get(b, set()) - alias[a] - {a}
+                if new:
+                    alias[a] |= new
+                    changed = True
+    return handles, alias
+
+
+def _driver_reusable_after_close(repo: Repo, R: Report) -> None:
+    r = R.rule("C10-D1-driver-reusable-after-close", "execute() closes the trace driver at the end of every run and the same driver object serves the next run (and the run-space records around the runs): on every path through a public driver method that closes a file handle, each attribute that can refer to the closed handle - the attribute itself or one bound to the same object elsewhere in the class - is reset to a constant (or is known to be empty) before the method returns, so the open-on-demand guards of the next run do not take a closed handle for an open one", 1)
+    n_inst = 0
+    for rel in sorted(m for m in repo.modules if m.startswith("semantiva/trace/drivers/")):
+        mod = repo.module(rel)
+        for cls in [c for c in mod.tree.body if isinstance(c, ast.ClassDef)]:
+            meths = {st.name: st for st in cls.body if isinstance(st, FuncNode)}
+            if not (set(meths) & _orch.DRIVER_METHODS):
+                continue
+            handles, alias = _handle_attrs(cls)
+            if not handles:
+                continue
+            for mname, raw in sorted(meths.items()):
+                if mname.startswith("_") and not mname.startswith("__") or mname == "__init__":
+                    continue  # private helpers are analysed where they are inlined
+                try:
+                    f = nfunc(repo, rel, f"{cls.name}.{mname}", deep=True)
+                except AnalysisError:
+                    f = raw
+                closes: List[Tuple[ast.Call, str]] = []
+                for c in calls_in(f):
+                    if call_attr(c) == "close" and isinstance(c.func, ast.Attribute) and not c.args:
+                        a = _self_attr(c.func.value)
+                        if a is None and isinstance(c.func.value, ast.Name):
+                            # a local that stands for the attribute (`fh = self._file` / `fh, self._file = self._file, None`)
+                            for v in assigned_value(f, c.func.value.id) + _unpacked_values(f, c.func.value):
+                                a = a or _self_attr(v)
+                        if a in handles:
+                            closes.append((c, a))
+                if not closes:
+                    continue
+                g = CFG(f)
+                for h in sorted(handles):
+                    related = {h} | alias.get(h, set())
+                    mine = [(c, a) for c, a in closes if a in related]
+                    if not mine:
+                        continue
+                    n_inst += 1
+
+                    def empty_atom(e: ast.AST, h=h) -> Optional[bool]:
+                        if _self_attr(e) == h:
+                            return False
+                        if isinstance(e, ast.Compare) and len(e.ops) == 1 and _self_attr(e.left) == h and isinstance(e.comparators[0], ast.Constant) and e.comparators[0].value is None:
+                            if isinstance(e.ops[0], ast.Is):
+                                return True
+                            if isinstance(e.ops[0], ast.IsNot):
+                                return False
+                        return None
+
+                    blocked: Set[Tuple[int, str]] = set()
+                    for n in g.nodes:
+                        if n.kind in ("if", "while") and n.part is not None:
+                            blocked |= {(n.id, e) for e in edges_guaranteeing(n.part, empty_atom)}
+                        if n.kind == "stmt" and n.ast is not None:
+                            st = n.ast
+                            resets = False
+                            if isinstance(st, (ast.Assign, ast.AnnAssign)) and getattr(st, "value", None) is not None:
+                                tg = st.targets if isinstance(st, ast.Assign) else [st.target]
+                                for t in tg:
+                                    if _self_attr(t) == h and _const_reset(st.value):
+                                        resets = True
+                                    if isinstance(t, (ast.Tuple, ast.List)) and isinstance(st.value, (ast.Tuple, ast.List)) and len(t.elts) == len(st.value.elts):
+                                        resets = resets or any(_self_attr(x) == h and _const_reset(v) for x, v in zip(t.elts, st.value.elts))
+                            # a helper method the normaliser left alone that resets the attribute first thing
+                            for c in calls_in(st):
+                                tgt = meths.get(c.func.attr) if isinstance(c.func, ast.Attribute) and _self_attr(c.func) is not None else None
+                                if tgt is not None and any(isinstance(s, ast.Assign) and any(_self_attr(t) == h for t in s.targets) and _const_reset(s.value) for s in tgt.body):
+                                    resets = True
+                            if resets:
+                                blocked.add((n.id, "n"))
+                    before = g.reach([g.entry], blocked_edges=blocked)
+                    bad = None
+                    for c, a in mine:
+                        for nid in g.nodes_for(stmt_of(c)):
+                            if nid not in before:
+                                continue
+                            after = g.reach([nid], blocked_edges=blocked, skip_labels={"EXC", "BASE"})
+                            if g.ret_exit in after:
+                                bad = (c, a, g.path_to(after, g.ret_exit))
+                                break
+                        if bad:
+                            break
+                    why = ""
+                    if bad:
+                        c, a, _path = bad
+                        same = "" if a == h else f" (`self.{h}` and `self.{a}` are bound to the same handle by `{norm(handles[h] if _self_attr(getattr(handles[h], 'value', None)) else handles[a])[:60]}`)"
+                        why = f"`{norm(c)[:50]}` closes the handle and a path to the end of {mname}() leaves `self.{h}` referring to it{same}: the driver is kept for the next run, whose `if self.{h}: return`-style guards then write to / flush a closed file - the traced run raises `ValueError: I/O operation on closed file` where the untraced run returns, and the run-space records are lost"
+                    R.check(not bad, r, rel, f"{cls.name}.{mname}", f"self.{h} is reset on every path of {mname}() that closes the handle it may refer to", why, bad[0].lineno if bad else raw.lineno, bad[2] if bad else None)
+    if n_inst == 0:
+        raise AnalysisError("no trace driver method that closes a file handle held in an instance attribute was recognised")
+
+
+# ---------------------------------------------------------------------------------------------------------
+# D1 (round 5): code that runs with and without a trace may take a trace-derived value (the driver's detail options)
+# only to select work that cannot raise on user values
+# ---------------------------------------------------------------------------------------------------------
+_CONTAINER_ANN = {"dict", "Dict", "Mapping", "MutableMapping", "list", "List", "Sequence", "MutableSequence", "Iterable", "Collection", "set", "Set", "FrozenSet", "frozenset", "tuple", "Tuple", "OrderedDict"}
+_PLAIN_ANN = SCALAR_ANN | {"Optional", "Union", "Literal"}
+_TOTAL_CALLS = {"isinstance", "issubclass", "type", "id", "callable", "hasattr", "getattr", "cast", "typing.cast"}
+_PLAIN_RESULT = {"len", "isinstance", "type", "id", "str", "repr", "bool", "int", "float", "callable", "hasattr", "hash", "format", "ascii"}
+_CONT_RESULT = {"set", "list", "sorted", "dict", "tuple", "frozenset", "reversed", "enumerate", "zip", "iter", "filter", "map"}
+_CONT_VIEWS = {"keys", "values", "items", "copy", "union", "intersection", "difference", "symmetric_difference"}
+_CONT_ELEMENT = {"get", "pop", "setdefault", "popitem"}
+PLAIN, CONT, LIVE = 0, 1, 2
+
+
+class _ValueKinds:
+    """Which expressions of one function stand for a user value (LIVE: a payload / context value - an operator, a
+    builtin protocol or a method call on it runs user code), for a plain container of such values (CONT: a snapshot
+    dict, a set of keys) or for neither.  Seeded from the parameters (declared type, or the kind of the argument a
+    caller binds), closed over assignments, loops and comprehensions."""
+
+    def __init__(self, repo: Repo, mod, fn: ast.AST, seed: Optional[Dict[str, int]] = None, flags: Set[str] = frozenset()):
+        self.repo, self.mod, self.fn = repo, mod, fn
+        self.kind: Dict[str, int] = {}
+        params = fn.args.posonlyargs + fn.args.args + fn.args.kwonlyargs
+        for a in params:
+            if a.arg in ("self", "cls") or a.arg in flags:
+                continue
+            if seed is not None and a.arg in seed:
+                k = seed[a.arg]
+                names = _ann_names(a.annotation)
+                if k == LIVE and names & _CONTAINER_ANN:
+                    k = CONT  # declared a plain container of values
+                self.kind[a.arg] = k
+                continue
+            if seed is not None:
+                continue
+            names = _ann_names(a.annotation)
+            if names and names <= _PLAIN_ANN:
+                continue
+            self.kind[a.arg] = CONT if names & _CONTAINER_ANN else LIVE
+        for extra in [fn.args.vararg, fn.args.kwarg]:
+            if extra is not None and seed is None:
+                self.kind[extra.arg] = CONT
+        changed = True
+        rounds = 0
+        while changed and rounds < 20:
+            changed = False
+            rounds += 1
+            for n in ast.walk(fn):
+                binds: List[Tuple[ast.AST, int]] = []
+                if isinstance(n, ast.Assign):
+                    k = self.of(n.value)
+                    binds = [(t, k) for t in n.targets]
+                elif isinstance(n, (ast.AnnAssign, ast.AugAssign)) and n.value is not None:
+                    binds = [(n.target, self.of(n.value))]
+                elif isinstance(n, ast.NamedExpr):
+                    binds = [(n.target, self.of(n.value))]
+                elif isinstance(n, (ast.For, ast.comprehension)):
+                    binds = [(n.target, LIVE if self.of(n.iter) != PLAIN else PLAIN)]
+                elif isinstance(n, ast.withitem) and n.optional_vars is not None:
+                    binds = [(n.optional_vars, self.of(n.context_expr))]
+                for t, k in binds:
+                    if k == PLAIN:
+                        continue
+                    for x in ast.walk(t):
+                        if isinstance(x, ast.Name) and isinstance(x.ctx, ast.Store) and x.id not in flags and self.kind.get(x.id, PLAIN) < k:
+                            self.kind[x.id] = k
+                            changed = True
+
+    def _plain_return(self, c: ast.Call) -> bool:
+        tg = [t for _m, t in self.repo.resolve_call(self.mod, c) if isinstance(t, FuncNode)]
+        if not tg:
+            return False
+        for t in tg:
+            names = _ann_names(t.returns)
+            if not names or not names <= _PLAIN_ANN | {"bytes"}:
+                return False
+        return True
+
+    def of(self, e: Optional[ast.AST]) -> int:
+        if e is None or isinstance(e, (ast.Constant, ast.JoinedStr, ast.Compare, ast.Lambda)):
+            return PLAIN
+        if isinstance(e, ast.Name):
+            return self.kind.get(e.id, PLAIN)
+        if isinstance(e, ast.Attribute):
+            return LIVE if self.of(e.value) == LIVE else PLAIN
+        if isinstance(e, ast.Subscript):
+            return LIVE if self.of(e.value) != PLAIN else PLAIN
+        if isinstance(e, ast.Starred):
+            return self.of(e.value)
+        if isinstance(e, ast.Await):
+            return self.of(e.value)
+        if isinstance(e, ast.NamedExpr):
+            return self.of(e.value)
+        if isinstance(e, ast.IfExp):
+            return max(self.of(e.body), self.of(e.orelse))
+        if isinstance(e, ast.BoolOp):
+            return max(self.of(v) for v in e.values)
+        if isinstance(e, ast.UnaryOp):
+            return PLAIN if isinstance(e.op, ast.Not) else self.of(e.operand)
+        if isinstance(e, ast.BinOp):
+            return max(self.of(e.left), self.of(e.right))
+        if isinstance(e, (ast.List, ast.Tuple, ast.Set)):
+            return CONT if any(self.of(x) != PLAIN for x in e.elts) else PLAIN
+        if isinstance(e, ast.Dict):
+            return CONT if any(self.of(x) != PLAIN for x in list(e.values) + [k for k in e.keys if k is not None]) else PLAIN
+        if isinstance(e, (ast.ListComp, ast.SetComp, ast.GeneratorExp, ast.DictComp)):
+            return CONT if any(self.of(g.iter) != PLAIN for g in e.generators) else PLAIN
+        if isinstance(e, ast.Call):
+            d = call_name(e) or ""
+            args = list(e.args) + [k.value for k in e.keywords]
+            top = max([self.of(a) for a in args], default=PLAIN)
+            if isinstance(e.func, ast.Name):
+                if d in _PLAIN_RESULT:
+                    return PLAIN
+                if d in _CONT_RESULT:
+                    return CONT if top != PLAIN else PLAIN
+                if d == "getattr":
+                    return LIVE if args and self.of(args[0]) == LIVE else PLAIN
+                if d in ("next", "min", "max", "sum"):
+                    return LIVE if top != PLAIN else PLAIN
+            if isinstance(e.func, ast.Attribute):
+                rk = self.of(e.func.value)
+                if rk == CONT:
+                    if e.func.attr in _CONT_VIEWS:
+                        return CONT
+                    return LIVE if e.func.attr in _CONT_ELEMENT else PLAIN
+                if rk == LIVE:
+                    return PLAIN if self._plain_return(e) else LIVE
+            if top == PLAIN or self._plain_return(e):
+                return PLAIN
+            return LIVE if top == LIVE else CONT
+        return PLAIN
+
+
+def _hook_ops(vk: _ValueKinds, root: ast.AST) -> List[Tuple[ast.AST, str]]:
+    """(node, what) for every operation inside *root* (nested defs / lambdas excluded) that runs user code on a LIVE
+    value: a comparison, arithmetic, a truth test, iteration, subscription, attribute read, formatting, or a call that
+    is handed / invoked on one."""
+    out: List[Tuple[ast.AST, str]] = []
+    todo = [root]
+    while todo:
+        n = todo.pop()
+        if n is not root and isinstance(n, FuncNode + (ast.Lambda,)):
+            continue
+        todo.extend(ast.iter_child_nodes(n))
+        if isinstance(n, ast.Compare):
+            operands = [n.left] + list(n.comparators)
+            for i, op in enumerate(n.ops):
+                if isinstance(op, (ast.Is, ast.IsNot)):
+                    continue
+                l, r_ = vk.of(operands[i]), vk.of(operands[i + 1])
+                if isinstance(op, (ast.In, ast.NotIn)):
+                    if l == LIVE or r_ == LIVE:
+                        out.append((n, "membership test on a user value (`__contains__` / `__hash__` / `__eq__`)"))
+                elif l == LIVE or r_ == LIVE:
+                    out.append((n, "comparison of user values (`__eq__` / `__ne__` / ordering of the value's class; the result may not even be a bool)"))
+        elif isinstance(n, ast.Call):
+            d = call_name(n) or ""
+            if d in _TOTAL_CALLS:
+                continue
+            args = list(n.args) + [k.value for k in n.keywords]
+            recv_live = isinstance(n.func, ast.Attribute) and vk.of(n.func.value) == LIVE
+            if recv_live or any(vk.of(a) == LIVE for a in args):
+                out.append((n, "call that hands a user value to / invokes a method of user-overridable code"))
+        elif isinstance(n, ast.UnaryOp):
+            if vk.of(n.operand) == LIVE:
+                out.append((n, "truth test / unary operator on a user value" if isinstance(n.op, ast.Not) else "unary operator on a user value"))
+        elif isinstance(n, ast.BoolOp):
+            if any(vk.of(v) == LIVE and isinstance(v, (ast.Name, ast.Attribute, ast.Subscript, ast.Call)) for v in n.values):
+                out.append((n, "truth test of a user value (`__bool__` / `__len__`)"))
+        elif isinstance(n, ast.BinOp):
+            if vk.of(n.left) == LIVE or vk.of(n.right) == LIVE:
+                out.append((n, "arithmetic on user values"))
+        elif isinstance(n, ast.AugAssign):
+            if vk.of(n.value) == LIVE or vk.of(n.target) == LIVE:
+                out.append((n, "arithmetic on user values"))
+        elif isinstance(n, (ast.If, ast.While, ast.IfExp)):
+            if vk.of(n.test) == LIVE and isinstance(n.test, (ast.Name, ast.Attribute, ast.Subscript, ast.Call)):
+                out.append((n.test, "truth test of a user value (`__bool__` / `__len__`)"))
+        elif isinstance(n, (ast.For, ast.comprehension)):
+            if vk.of(n.iter) == LIVE:
+                out.append((n.iter, "iteration over a user value"))
+        elif isinstance(n, ast.Subscript) and isinstance(n.ctx, ast.Load):
+            if vk.of(n.value) == LIVE:
+                out.append((n, "subscription of a user value (`__getitem__`)"))
+        elif isinstance(n, ast.Attribute) and isinstance(n.ctx, ast.Load):
+            par = getattr(n, "_parent", None)
+            if vk.of(n.value) == LIVE and not (isinstance(par, ast.Call) and par.func is n) and not (n.attr.startswith("__") and n.attr.endswith("__")):
+                out.append((n, "attribute read on a user value (`__getattr__` / property)"))
+        elif isinstance(n, ast.FormattedValue):
+            if vk.of(n.value) == LIVE:
+                out.append((n, "formatting of a user value (`__format__` / `__str__`)"))
+    out.sort(key=lambda t: (getattr(t[0], "lineno", 0), getattr(t[0], "col_offset", 0)))
+    return out
+
+
+class _ModeAnalysis:
+    def __init__(self, repo: Repo):
+        self.repo = repo
+        self.safe_cache: Dict[Tuple[int, Tuple[Tuple[str, int], ...]], bool] = {}
+
+    def open_hooks(self, mod, vk: _ValueKinds, roots: List[ast.AST], depth: int = 0) -> List[Tuple[ast.AST, str]]:
+        """Hook operations inside *roots* that are neither inside a containing try nor calls of repository functions
+        that contain whatever they do with the user values they are handed."""
+        out: List[Tuple[ast.AST, str]] = []
+        seen: Set[int] = set()
+        for root in roots:
+            for n, what in _hook_ops(vk, root):
+                if id(n) in seen:
+                    continue
+                seen.add(id(n))
+                if contained(n):
+                    continue
+                if isinstance(n, ast.Call) and depth < 4 and self._callee_contains(mod, vk, n, depth):
+                    continue
+                out.append((n, what))
+        out.sort(key=lambda t: (getattr(t[0], "lineno", 0), getattr(t[0], "col_offset", 0)))
+        return out
+
+    def _callee_contains(self, mod, vk: _ValueKinds, c: ast.Call, depth: int) -> bool:
+        targets = [(m, t) for m, t in self.repo.resolve_call(mod, c) if isinstance(t, FuncNode)]
+        if not targets:
+            return False
+        if isinstance(c.func, ast.Attribute) and vk.of(c.func.value) == LIVE:
+            return False  # a method of the user value itself
+        for m, t in targets:
+            b = _bind_call(t, c)
+            if b is None:
+                return False
+            seed = {p: vk.of(a) for p, a in b.items() if vk.of(a) != PLAIN}
+            key = (id(t), tuple(sorted(seed.items())))
+            if key not in self.safe_cache:
+                self.safe_cache[key] = True  # recursion: assume the inner call is fine, the outer one decides
+                cvk = _ValueKinds(self.repo, m, t, seed=seed)
+                self.safe_cache[key] = not self.open_hooks(m, cvk, list(t.body), depth + 1)
+            if not self.safe_cache[key]:
+                return False
+        return True
+
+
+def _mentions(e: Optional[ast.AST], names: Set[str], attrs: Set[str] = frozenset()) -> bool:
+    if e is None:
+        return False
+    for x in ast.walk(e):
+        if isinstance(x, ast.Name) and isinstance(x.ctx, ast.Load) and x.id in names:
+            return True
+        if attrs and _self_attr(x) in attrs and isinstance(x.ctx, ast.Load):
+            return True
+    return False
+
+
+def _only_from(e: ast.AST, names: Set[str], attrs: Set[str], local_names: Set[str]) -> bool:
+    """Every variable the value of *e* is computed from is one of *names* / `self.<attrs>` (and there is one)."""
+    hit = False
+    todo = [e]
+    while todo:
+        x = todo.pop()
+        if isinstance(x, ast.Attribute) and _self_attr(x) is not None:
+            if x.attr in attrs:
+                hit = True
+                continue
+            par = getattr(x, "_parent", None)
+            if isinstance(par, ast.Call) and par.func is x:
+                continue  # a method of the same object applied to the operands
+            return False
+        if isinstance(x, ast.Call):
+            todo.extend(list(x.args) + [k.value for k in x.keywords])
+            if isinstance(x.func, ast.Attribute):
+                todo.append(x.func.value if _self_attr(x.func) is None else x.func)
+            continue
+        if isinstance(x, ast.Name):
+            if x.id in names:
+                hit = True
+            elif x.id in local_names:
+                return False
+            continue
+        if isinstance(x, (ast.Lambda,) + FuncNode):
+            return False
+        todo.extend(ast.iter_child_nodes(x))
+    return hit
+
+
+def _mode_selected_work_contained(repo: Repo, R: Report, ex: ast.AST, fold) -> None:
+    r = R.rule("C10-D1-mode-selected-work-contained", "code that runs whether or not a trace is attached (reached from execute() outside its trace-only blocks) and is handed a value derived from the trace driver - the detail options, kept in a parameter or in an attribute its constructor fills - lets that value select only work that cannot raise on user values: every operation on a payload / context value (comparison, truth test, len / repr / serialisation, method call, iteration) that is executed under one outcome of a test on the trace-derived value and not under the other sits inside a try that contains Exception, or is a call of a function that does - otherwise the same run raises in one mode and returns in the other", 2)
+    omod = repo.module(ORCH)
+    # what of execute() is computed from the trace driver alone
+    locals_ex = {x.id for x in ast.walk(ex) if isinstance(x, ast.Name) and isinstance(x.ctx, ast.Store)} | {a.arg for a in ex.args.args + ex.args.kwonlyargs}
+    flags: Set[str] = {_orch.trace_param(ex)}
+    changed = True
+    while changed:
+        changed = False
+        for n in ast.walk(ex):
+            if isinstance(n, (ast.Assign, ast.AnnAssign)) and getattr(n, "value", None) is not None:
+                tg = n.targets if isinstance(n, ast.Assign) else [n.target]
+                if all(isinstance(t, ast.Name) for t in tg) and _only_from(n.value, flags, set(), locals_ex - {"self"}):
+                    for t in tg:
+                        if t.id not in flags:
+                            flags.add(t.id)
+                            changed = True
+    # trace-only code of execute (decided by the other D1 rules)
+    trace_only: Set[int] = set()
+    for n in ast.walk(ex):
+        if isinstance(n, (ast.If, ast.IfExp)):
+            v = fold(n.test)
+            part = (n.body if v is True else n.orelse if v is False else [])
+            for st in (part if isinstance(part, list) else [part]):
+                trace_only |= {id(x) for x in ast.walk(st)}
+    # functions that receive a trace-derived value: (function, parameters that carry it); classes whose constructor does
+    work: List[Tuple[object, ast.AST, frozenset]] = []
+    attr_flags: Dict[int, Tuple[object, ast.ClassDef, Set[str]]] = {}
+    done: Set[Tuple[int, frozenset]] = set()
+
+    def feed(mod, caller_flags: Set[str], caller_attrs: Set[str], c: ast.Call) -> None:
+        args = list(c.args) + [k.value for k in c.keywords]
+        if not any(_mentions(a, caller_flags, caller_attrs) for a in args):
+            return
+        for m, t in repo.resolve_call(mod, c) or _method_of_local_instance(repo, mod, c):
+            if not isinstance(t, FuncNode):
+                continue
+            b = _bind_call(t, c)
+            if b is None:
+                continue
+            carried = frozenset(p for p, a in b.items() if _mentions(a, caller_flags, caller_attrs))
+            if carried:
+                work.append((m, t, carried))
+
+    for c in calls_in(ex, include_nested=True):
+        if id(c) not in trace_only:
+            feed(omod, flags, set(), c)
+    ma = _ModeAnalysis(repo)
+    n_tests = 0
+    guard = 0
+    while work and guard < 200:
+        guard += 1
+        mod, fn, carried = work.pop(0)
+        cls = next((a for a in ancestors(fn) if isinstance(a, ast.ClassDef)), None)
+        if fn.name == "__init__" and cls is not None:
+            # the constructor keeps the value on the object: every method of the class reads it from there
+            cell = attr_flags.setdefault(id(cls), (mod, cls, set()))
+            grew = False
+            for n in ast.walk(fn):
+                if isinstance(n, (ast.Assign, ast.AnnAssign)) and getattr(n, "value", None) is not None and _mentions(n.value, set(carried)):
+                    for t in (n.targets if isinstance(n, ast.Assign) else [n.target]):
+                        a = _self_attr(t)
+                        if a is not None and a not in cell[2]:
+                            cell[2].add(a)
+                            grew = True
+            if grew:
+                for st in cls.body:
+                    if isinstance(st, FuncNode):
+                        done.discard((id(st), frozenset()))
+                        work.append((mod, st, frozenset()))
+        attrs = attr_flags[id(cls)][2] if cls is not None and id(cls) in attr_flags else set()
+        key = (id(fn), carried | frozenset("self." + a for a in attrs))
+        if key in done or (not carried and not attrs):
+            continue
+        done.add(key)
+        qn = qualname_of(fn)
+        # locals computed from the trace-derived values alone
+        fl: Set[str] = set(carried)
+        locals_fn = {x.id for x in ast.walk(fn) if isinstance(x, ast.Name) and isinstance(x.ctx, ast.Store)} | {a.arg for a in fn.args.posonlyargs + fn.args.args + fn.args.kwonlyargs}
+        changed = True
+        while changed:
+            changed = False
+            for n in walk_no_nested(fn):
+                if isinstance(n, (ast.Assign, ast.AnnAssign)) and getattr(n, "value", None) is not None:
+                    tg = n.targets if isinstance(n, ast.Assign) else [n.target]
+                    if all(isinstance(t, ast.Name) for t in tg) and _only_from(n.value, fl, attrs, locals_fn - {"self"}):
+                        for t in tg:
+                            if t.id not in fl:
+                                fl.add(t.id)
+                                changed = True
+        for c in calls_in(fn, include_nested=True):
+            feed(mod, fl, attrs, c)
+        vk = _ValueKinds(repo, mod, fn, flags=fl)
+        g = CFG(fn)
+        # statement level: what runs under one outcome of the test and not under the other
+        for t in g.nodes:
+            if t.kind not in ("if", "while") or t.part is None or not _mentions(t.part, fl, attrs):
+                continue
+            n_tests += 1
+            sides = []
+            for lab in ("T", "F"):
+                starts = [s for s, l in g.succ[t.id] if l == lab]
+                sides.append(set(g.reach(starts, blocked={t.id})) if starts else set())
+            dep = (sides[0] - sides[1]) | (sides[1] - sides[0])
+            roots = []
+            for nid in sorted(dep):
+                n = g.nodes[nid]
+                if n.part is not None:
+                    roots.append(n.part)
+                elif n.kind == "stmt" and n.ast is not None:
+                    roots.append(n.ast)
+            # ... and what the test itself evaluates after the trace-derived operand
+            roots += _after_flag_operands(t.part, fl, attrs)
+            bad = ma.open_hooks(mod, vk, roots)
+            _report_mode(R, r, mod.rel, qn, t.ast, t.part, bad)
+        # expression level: conditional expressions, short-circuit operands, comprehension filters
+        for n in walk_no_nested(fn):
+            roots = []
+            test = None
+            if isinstance(n, ast.IfExp) and _mentions(n.test, fl, attrs):
+                test, roots = n.test, [n.body, n.orelse] + _after_flag_operands(n.test, fl, attrs)
+            elif isinstance(n, (ast.ListComp, ast.SetComp, ast.GeneratorExp, ast.DictComp)):
+                for gen in n.generators:
+                    for cond in gen.ifs:
+                        if _mentions(cond, fl, attrs):
+                            test = cond
+                            roots += ([n.key, n.value] if isinstance(n, ast.DictComp) else [n.elt]) + _after_flag_operands(cond, fl, attrs)
+            elif isinstance(n, ast.BoolOp) and not isinstance(getattr(n, "_parent", None), ast.BoolOp):
+                st = stmt_of(n)
+                is_test = isinstance(st, (ast.If, ast.While)) and st.test is n
+                if not is_test and _mentions(n, fl, attrs):
+                    roots = _after_flag_operands(n, fl, attrs)
+                    test = n if roots else None
+            if test is None:
+                continue
+            n_tests += 1
+            bad = ma.open_hooks(mod, vk, roots)
+            _report_mode(R, r, mod.rel, qn, stmt_of(n), test, bad)
+    if n_tests == 0:
+        raise AnalysisError("execute(): no code outside the trace-only blocks was found that branches on a value derived from the trace driver (the detail options of the delta collector)")
+
+
+def _method_of_local_instance(repo: Repo, mod, c: ast.Call):
+    """Targets of `<local>.m(..)` when every value the local is bound to is a constructor call of a repository class
+    (also from inside a closure that reads the local of the enclosing function)."""
+    if not (isinstance(c.func, ast.Attribute) and isinstance(c.func.value, ast.Name)):
+        return []
+    fn = next((a for a in ancestors(c) if isinstance(a, FuncNode)), None)
+    if fn is None:
+        return []
+    out = []
+    for v in _lookup(fn, c.func.value):
+        if not isinstance(v, ast.Call):
+            return []
+        inits = [(m, t) for m, t in repo.resolve_call(mod, v) if isinstance(t, FuncNode) and t.name == "__init__"]
+        if not inits:
+            return []
+        for m, init in inits:
+            cls = next((a for a in ancestors(init) if isinstance(a, ast.ClassDef)), None)
+            hit = repo.method(m, cls, c.func.attr) if cls is not None else None
+            if hit:
+                out.append(hit)
+    return out
+
+
+def _after_flag_operands(test: ast.AST, fl: Set[str], attrs: Set[str]) -> List[ast.AST]:
+    """Operands of short-circuit operators in *test* that are evaluated only for one outcome of a trace-derived
+    operand written before them."""
+    out: List[ast.AST] = []
+    for b in [x for x in ast.walk(test) if isinstance(x, ast.BoolOp)]:
+        seen_flag = False
+        for v in b.values:
+            if seen_flag:
+                out.append(v)
+            elif _mentions(v, fl, attrs):
+                seen_flag = True
+    return out
+
+
+def _report_mode(R: Report, r, rel: str, qn: str, st: ast.AST, test: ast.AST, bad) -> None:
+    what = ""
+    line = getattr(st, "lineno", 0)
+    if bad:
+        n, kind = bad[0]
+        line = getattr(n, "lineno", line)
+        what = f"`{norm(stmt_of(n))[:70]}` is executed for one outcome of `{norm(test)[:50]}` (a value derived from the trace driver) and not for the other, outside any containing try: `{norm(n)[:40]}` is a {kind} - a context / payload value whose hook raises (a numpy array with more than one element in a truth test, ...) makes the run raise with one trace setting and return with another, so attaching a driver changes what the run raises"
+    R.check(not bad, r, rel, qn, f"work selected by `{norm(test)[:60]}` is contained", what, line)
